@@ -219,7 +219,7 @@ def rint(rng, lo, hi, shape, density=1.0):
     return M
 
 
-def build_model(cuqi, rng, kind, D, R, Dobj, Robj):
+def build_model(cuqi, rng, kind, D, R, Dobj, Robj, scale=1.0):
     """kind: gen-<none|jac|gs|gd|gw>-<k|s> | linmat | linfun-<k|s> | pde-<none|jac|gs|gd|gw> | heat-<...>"""
     from cuqi.array import CUQIarray
     m = Mdl()
@@ -245,8 +245,8 @@ def build_model(cuqi, rng, kind, D, R, Dobj, Robj):
 
     if parts[0] == "gen":
         gk, fs = parts[1], parts[2]
-        A = rint(rng, -2, 2, (nR, nD)); B = rint(rng, -1, 1, (nR, nD), 0.5); C = rint(rng, -1, 1, (nR, nD), 0.3)
-        c = rint(rng, -2, 2, (nR,))
+        A = scale * rint(rng, -2, 2, (nR, nD)); B = rint(rng, -1, 1, (nR, nD), 0.5); C = rint(rng, -1, 1, (nR, nD), 0.3)
+        c = scale * rint(rng, -2, 2, (nR,))
         arg = str(rng.choice(["x", "u", "theta"]))
         core = lambda f: A @ f + B @ (f * f) + C @ (f * f * f) + c
         J = lambda f: A + 2 * B * f[None, :] + 3 * C * (f * f)[None, :]
@@ -266,14 +266,14 @@ def build_model(cuqi, rng, kind, D, R, Dobj, Robj):
             m.obj = cuqi.model.Model(forward, Robj, Dobj, **kw)
         m.token = f"gen:{gk}:{tok_bool(fs == 'k')}:{qm(A)}:{qm(B)}:{qm(C)}:{qv(c)}:{arg}"
     elif parts[0] == "linmat":
-        A = rint(rng, -3, 3, (nR, nD))
+        A = scale * rint(rng, -3, 3, (nR, nD))
         core = lambda f: A @ f
         with quiet():
             m.obj = cuqi.model.LinearModel(A, range_geometry=Robj, domain_geometry=Dobj)
         m.token = f"linmat:{qm(A)}"
     elif parts[0] == "linfun":
         fs = parts[1]
-        A = rint(rng, -3, 3, (nR, nD))
+        A = scale * rint(rng, -3, 3, (nR, nD))
         Adj = A.T.copy()
         core = lambda f: A @ f
         arg = str(rng.choice(["x", "v"]))
@@ -360,11 +360,11 @@ class Canon:
         from cuqi.array import CUQIarray
         from cuqi.samples import Samples
         if isinstance(out, Samples):
-            return ("smp", self.gid(out.geometry), bool(out.is_par), np.asarray(out.samples, dtype=float))
+            return ("smp", self.gid(out.geometry), bool(out.is_par), np.array(out.samples, dtype=float))
         if isinstance(out, CUQIarray):
-            return ("arr", bool(out.is_par), self.gid(out.geometry), np.asarray(out, dtype=float).ravel())
+            return ("arr", bool(out.is_par), self.gid(out.geometry), np.array(out, dtype=float).ravel())
         if isinstance(out, np.ndarray) or np.isscalar(out):
-            return ("nd", np.asarray(out, dtype=float).ravel())
+            return ("nd", np.array(out, dtype=float).ravel())
         return ("other", type(out).__name__)
 
 
@@ -705,6 +705,9 @@ def run(ctx):
     # -------------------------------------------------------------------- user geometries with `gradient`, wrapped in MappedGeometry
     wrapped_user_geometries(ctx, cuqi, rng, lines, pending, verdicts, 160 if thorough else 24)
 
+    # -------------------------------------------------------------------- dtypes, in-place updates, aliasing, caches: every model kind
+    robustness(ctx, cuqi, rng, lines, pending, verdicts, 320 if thorough else 48)
+
     # -------------------------------------------------------------------- call histories on one model object
     histories(ctx, cuqi, rng, lines, pending, verdicts, 400 if thorough else 40)
 
@@ -751,6 +754,200 @@ def run(ctx):
                 if f["case"].get("call") == desc.get("call"):
                     ctx.fail(key, f["case"], f["demanded"], f["got"], f["what"] + " [found while searching near a model/implementation disagreement]")
                     break
+
+
+def robustness(ctx, cuqi, rng, lines, pending, verdicts, nconf):
+    """One model object per configuration (all 16 model kinds incl. steady / time-dependent PDE models, identity-like and
+    mapped domain geometries, dimensions 1..3) and a fixed script of calls on it:
+      * forward on an ndarray, on the SAME ndarray after an in-place update, on a CUQIarray / a fresh array / a Samples
+        object holding the new numbers, interleaved with gradient calls and with A-B-A alternation;
+      * the same numbers as int64 / int32 / float32 / bool (/ list for matrix models) ndarray, CUQIarray and Samples;
+      * a tiny (1e-7 relative) in-place perturbation and, for linear models, inputs scaled by 1e-12 / 1e12;
+      * mutation of every returned array before the next call; byte snapshots of every caller-owned array.
+    Every result must be the float64 result R.fun2par(F(D.par2fun(x))) of the *current* numbers (explicit python
+    composition on fresh arrays), column by column for Samples, and equal the (pure) model's prediction."""
+    from cuqi.array import CUQIarray
+    from cuqi.samples import Samples
+    DK = ["cont1d", "default1d", "discrete", "map-aff-1-1d", "map-sq-1-1d"]
+    cov = ctx.extra_cov.setdefault("robustness_configs", {})
+    for ri in range(nconf):
+        mk = MODEL_KINDS[ri % len(MODEL_KINDS)]
+        dk = DK[(ri // 3) % len(DK)]
+        rk = ["cont1d", "discrete", "default1d"][ri % 3]
+        n = [2, 3, 1, 2][ri % 4]
+        if mk.startswith("pde") and "aff" in dk:
+            dk = "map-sq-1-1d"      # keep A0 + diag(par2fun x) positive definite
+        D = make_geometries(cuqi, rng, n, dk)
+        nDf = int(np.prod(D.fun_shape))
+        nr = nDf if mk.startswith("heat") else [2, 1, 3][(ri // 2) % 3]
+        R = make_geometries(cuqi, rng, nr, rk)
+        if D.family == "map" and ri % 2 == 0:
+            install_geom_gradient(D, "x")
+        try:
+            M = build_model(cuqi, rng, mk, D, R, D.obj, R.obj, scale=0.25)
+        except Exception as e:
+            ctx.note(f"robustness: constructor refused {mk} {D.label}->{R.label}: {type(e).__name__}")
+            continue
+        model = M.obj
+        Dg, Rg = model.domain_geometry, model.range_geometry
+
+        def eq_eval(a_, b_):
+            try:
+                with quiet():
+                    return "T" if bool(a_ == b_) else "F"
+            except IndexError:
+                return "I"
+            except KeyError:
+                return "K"
+        eqr = eq_eval(Dg, Rg) + eq_eval(Rg, Dg)
+        if "I" in eqr or "K" in eqr:
+            continue      # the geometry comparison raises for CUQIarrays (listed finding, covered in the main stream)
+        loose = eqr[0] == "T" and type(Dg) is not type(Rg)
+        Dtok, Rtok = D.token(0), R.token(1)
+        canon = Canon(cuqi, [(Dg, 0), (Rg, 1)])
+        exact = D.exact and R.exact and M.exact
+        tol = 1e-12 if exact else TOL
+        conf = {"robustness": True, "model": mk, "domain": D.label, "domain_gradient": D.gradstyle, "range": R.label, "n": n,
+                "seed_index": 300000 + ri}
+        cov[f"{mk.split('-')[0]}|{D.family}|n={n}"] = cov.get(f"{mk.split('-')[0]}|{D.family}|n={n}", 0) + 1
+        lo = 0 if (D.nonneg or M.nonneg) else -3
+        newx = lambda: rng.randint(lo, 4, size=n).astype(float)
+        xa, xb, xc = newx(), newx(), newx()
+        if np.array_equal(xa, xb):
+            xb = xb + 1.0
+        xbool = rng.randint(0, 2, size=n).astype(float)
+        Ns = [2, 1, 3][ri % 3]
+        Xs = rng.randint(lo, 4, size=(n, Ns)).astype(float)
+        d = rng.randint(-3, 4, size=R.par_dim).astype(float)
+        formable = M.gradkind != "none" and R.ident and (D.ident or D.gradstyle is not None)
+
+        def ref_of(p):
+            with quiet():
+                f = np.asarray(Dg.par2fun(np.array(p, dtype=float)), dtype=float)
+                y = np.asarray(M.core(f.ravel()), dtype=float).reshape(R.fun_shape)
+                return np.asarray(Rg.fun2par(y), dtype=float).ravel()
+
+        def ref_grad(p):
+            p = np.array(p, dtype=float)
+            J = np.zeros((R.par_dim, n))
+            for j in range(n):
+                def cd(h):
+                    e = np.zeros(n); e[j] = h
+                    return (ref_of(p + e) - ref_of(p - e)) / (2 * h)
+                h = 2.0 ** -6
+                a_, b_, c_ = cd(h), cd(h / 2), cd(h / 4)
+                J[:, j] = (16 * ((4 * c_ - b_) / 3) - (4 * b_ - a_) / 3) / 15
+            return J.T @ d
+        step = [0]
+
+        def do(label, thunk, line, want, owned, aspect="value", gtol=None):
+            """run one call; `owned` = caller-owned arrays that must not be modified; `want` canonical expectation"""
+            step[0] += 1
+            snaps = [np.asarray(o).tobytes() for o in owned]
+            st, val = call(thunk)
+            c = canon(val) if st == "ok" else ("err", val)
+            desc = {**conf, "call": "robustness", "step": step[0], "probe": label}
+            ctx.case(f"robust:{label}", desc)
+            if line is not None:
+                lines.append(line); pending.append((len(lines) - 1, f"tie:robust:{label}", desc, c, tol))
+            for o, b in zip(owned, snaps):
+                if np.asarray(o).tobytes() != b:
+                    ctx.fail(f"robust:{label}:caller-array-modified", desc, "caller-owned array unchanged", "modified", "a call modified an array owned by the caller")
+            if want is not None:
+                ok = same_canon(c, want, tol) if gtol is None else (c[0] == want[0] and c[0] != "err" and veq(c[1] if c[0] == "nd" else c[3], want[1] if want[0] == "nd" else want[3], gtol))
+                if not ok:
+                    ctx.fail(f"robust:{label}:{aspect}", desc, short(want), short(c),
+                             "the output is not that of the current float64 numbers (stale cache, dtype truncation or dependence on earlier calls)")
+                    verdicts["robust:wrong"] = verdicts.get("robust:wrong", 0) + 1
+                else:
+                    verdicts["robust:ok"] = verdicts.get("robust:ok", 0) + 1
+            # G3: the caller may do what it likes with the returned array
+            if st == "ok":
+                try:
+                    if isinstance(val, Samples):
+                        val.samples[...] = 77.0
+                    elif isinstance(val, np.ndarray) and not any(np.shares_memory(val, np.asarray(o)) for o in owned):
+                        val[...] = 77.0
+                except Exception:
+                    pass
+            return c
+
+        fl = lambda tok, ip=True: f"fwd {M.token} {Dtok} {Rtok} {eqr} {tok} {tok_bool(ip)} 1 _"
+        gl = lambda dtok, wtok: f"grad {M.token} {Dtok} {Rtok} {eqr} {dtok} {wtok} 1 1"
+        w_nd = lambda p: ("nd", ref_of(p))
+        w_arr = lambda p: ("arr", True, 1, ref_of(p))
+        w_smp = lambda P: ("smp", 1, True, np.column_stack([ref_of(P[:, j]) for j in range(P.shape[1])]))
+        arr_ok = not loose      # CUQIarray inputs hit the loose-equality finding otherwise (main stream)
+        # ---- in-place updates of the same argument array, fresh equal arrays, other representations
+        x = xa.copy()
+        do("nd:first", lambda: model.forward(x), fl(f"nd:{qv(x)}"), w_nd(xa), [x])
+        if formable:
+            do("grad:first", lambda: model.gradient(d, x), gl(f"nd:{qv(d)}", f"nd:{qv(x)}"), ("nd", ref_grad(xa)), [x, d], "gradient", 1e-5)
+        x[:] = xb
+        do("nd:after-inplace-update", lambda: model.forward(x), fl(f"nd:{qv(xb)}"), w_nd(xb), [x], "stale")
+        if arr_ok:
+            do("arr:after-inplace-update", lambda: model.forward(CUQIarray(x.copy(), geometry=Dg)), fl(f"arr:1:0:{qv(xb)}"), w_arr(xb), [x], "stale")
+        if formable:
+            do("grad:after-inplace-update", lambda: model.gradient(d, x), gl(f"nd:{qv(d)}", f"nd:{qv(xb)}"), ("nd", ref_grad(xb)), [x, d], "stale-gradient", 1e-5)
+        do("nd:fresh-equal-array", lambda: model.forward(xb.copy()), fl(f"nd:{qv(xb)}"), w_nd(xb), [xb])
+        x[:] = xa
+        do("nd:A-B-A", lambda: model.forward(x), fl(f"nd:{qv(xa)}"), w_nd(xa), [x], "stale")
+        Xcur = Xs.copy()
+        do("samples:first", lambda: model.forward(Samples(Xcur, geometry=Dg)), fl(f"smp:1:0:{qm(Xs.T)}"), w_smp(Xs), [Xcur])
+        Xcur[:, 0] = xc
+        X2 = Xs.copy(); X2[:, 0] = xc
+        do("samples:after-inplace-update", lambda: model.forward(Samples(Xcur, geometry=Dg)), fl(f"smp:1:0:{qm(X2.T)}"), w_smp(X2), [Xcur], "stale")
+        do("nd:after-samples", lambda: model.forward(X2[:, -1].copy()), fl(f"nd:{qv(X2[:, -1])}"), w_nd(X2[:, -1]), [X2])
+        # ---- a tiny in-place perturbation must be seen (tolerance-based change detection)
+        x[:] = xa
+        r0 = call(lambda: np.array(model.forward(x), dtype=float))
+        x[:] = xa * (1 + 1e-7) + 1e-7
+        r1 = call(lambda: np.array(model.forward(x), dtype=float))
+        ctx.case("robust:nd:tiny-update", {**conf, "call": "robustness", "probe": "tiny-update"})
+        if r0[0] == "ok" and r1[0] == "ok":
+            want_d = ref_of(x) - ref_of(xa)
+            got_d = np.asarray(r1[1]).ravel() - np.asarray(r0[1]).ravel()
+            if np.abs(want_d).max() > 1e-9 and np.abs(got_d - want_d).max() > 0.5 * np.abs(want_d).max():
+                ctx.fail("robust:nd:tiny-update:stale", {**conf, "call": "robustness", "probe": "tiny-update"}, want_d.tolist(), got_d.tolist(),
+                         "a 1e-7 in-place change of the argument is not reflected in the output")
+        # ---- extreme scales (linear kinds): F(s x) - F(0) = s (F(x) - F(0))
+        if mk.split("-")[0] in ("linmat", "linfun", "heat") and D.family == "id":
+            z = call(lambda: np.array(model.forward(np.zeros(n)), dtype=float))
+            b1 = call(lambda: np.array(model.forward(xa.copy()), dtype=float))
+            for sc in (1e-12, 1e12):
+                ctx.case("robust:nd:scaled", {**conf, "call": "robustness", "probe": f"scale {sc}"})
+                bs = call(lambda: np.array(model.forward(sc * xa), dtype=float))
+                if z[0] == b1[0] == bs[0] == "ok":
+                    lhs, rhs = bs[1] - z[1], sc * (b1[1] - z[1])
+                    if np.abs(lhs - rhs).max() > 1e-6 * (np.abs(rhs).max() + (np.abs(z[1]).max() if sc < 1 else 0) * 1e-3 + 1e-300):
+                        ctx.fail("robust:nd:scaled:value", {**conf, "call": "robustness", "probe": f"scale {sc}"}, rhs.tolist(), lhs.tolist(), "linear model is not homogeneous at extreme scales")
+        # ---- non-float64 inputs: the same numbers as int64 / int32 / float32 / bool / list
+        for dt_name, dt in (("int64", np.int64), ("int32", np.int32), ("float32", np.float32), ("bool", np.bool_), ("list", None)):
+            src = xbool if dt_name == "bool" else xa
+            Xsrc = (np.abs(Xs) > 1).astype(float) if dt_name == "bool" else Xs
+            if dt is None:
+                if mk != "linmat" or D.family != "id":
+                    continue
+                do("nd:list", lambda: model.forward([float(v) for v in src]), fl(f"nd:{qv(src)}"), w_nd(src), [])
+                continue
+            xt = src.astype(dt)
+            do(f"nd:{dt_name}", lambda: model.forward(xt), fl(f"nd:{qv(src)}"), w_nd(src), [xt], "dtype")
+            if arr_ok:
+                do(f"arr:{dt_name}", lambda: model.forward(CUQIarray(xt.copy(), geometry=Dg)), fl(f"arr:1:0:{qv(src)}"), w_arr(src), [xt], "dtype")
+            Xt = Xsrc.astype(dt)
+            do(f"samples:{dt_name}", lambda: model.forward(Samples(Xt, geometry=Dg)), fl(f"smp:1:0:{qm(Xsrc.T)}"), w_smp(Xsrc), [Xt], "dtype")
+            if formable and dt_name != "bool":
+                dti = d.astype(dt)
+                do(f"grad:{dt_name}", lambda: model.gradient(dti, xt), gl(f"nd:{qv(d)}", f"nd:{qv(src)}"), ("nd", ref_grad(src)), [xt, dti], "dtype-gradient", 1e-5)
+            if mk.split("-")[0] in ("linmat", "linfun") and D.family == "id" and R.family == "id":
+                # adjoint goes through the same Samples branch
+                Yt = rng.randint(-3, 4, size=(R.par_dim, Ns)).astype(float)
+                if dt_name == "bool":
+                    Yt = (Yt > 0).astype(float)
+                with quiet():
+                    want_adj = np.column_stack([np.asarray(model.adjoint(Yt[:, j].copy()), dtype=float) for j in range(Ns)])
+                Ytt = Yt.astype(dt)
+                do(f"adjoint-samples:{dt_name}", lambda: model.adjoint(Samples(Ytt, geometry=Rg)), None, ("smp", 0, True, want_adj), [Ytt], "dtype")
 
 
 def wrapped_user_geometries(ctx, cuqi, rng, lines, pending, verdicts, nconf):
